@@ -143,7 +143,7 @@ def encSpec (sp : Using.NumSpec) : String :=
   s!"num:{sp.width}:{if sp.signEnd then "e" else "b"}:" ++
   (match sp.signChar with | some c => toString c.toNat | none => "-") ++
   s!":{if sp.comma then 1 else 0}:" ++
-  (match sp.decimalPoint with | some d => toString d | none => "-") ++ s!":{sp.realSharps}"
+  (match sp.decimalPoint with | some d => toString d | none => "-") ++ s!":{sp.realSharps}:{sp.decimalsN}"
 
 def encParts (ps : List Using.Part) : String :=
   " ".intercalate (ps.map fun
@@ -665,7 +665,8 @@ def handleBlocks (r : List String) : Option String := do
     | .error (.elseAfterElse l) => s!"err elseafter 0 {l}"
     | .error (.beforeCase l) => s!"err beforecase 0 {l}"
     | .error (.illegalInType l) => s!"err intype 0 {l}"
-    | .error (.fieldOutside l) => s!"err fieldoutside 0 {l}")
+    | .error (.fieldOutside l) => s!"err fieldoutside 0 {l}"
+    | .error (.caseAfterElse l) => s!"err caseafter 0 {l}")
 
 
 /-! ### the lexical layer (C14): `lex <text>` -> the token stream, one item per token -/
@@ -844,7 +845,7 @@ def handle (toks : List String) : String :=
       let isD := ty = "D"
       let k := if isD then none else NumFmt.singleRoundDigits r1
       (match k with | some k => toString k | none => "-") ++ " " ++
-        encStr (if isD then NumFmt.fmtFloat true r1 (nn = "1") else NumFmt.fmtSingle r1 r2 t (nn = "1"))
+        encStr (if isD then NumFmt.fmtFloat true (NumFmt.chooseDouble r1 r2 t) (nn = "1") else NumFmt.fmtSingle r1 r2 t (nn = "1"))
     | _, _, _ => "bad-op"
   | ["pyint", t] =>
     match decStr t with
